@@ -138,7 +138,8 @@ class NamingScenario(StateScenario):
             ignore = list(supplied)
         elif ign == "unknown":
             ignore = ["no.such.dest"]
-        return {"op": "cmdline", "argv": argv, "ignore": ignore, "on": rng.choice(["schema", "config"])}
+        return {"op": "cmdline", "argv": argv, "ignore": ignore, "on": rng.choice(["schema", "config", "schema-method"]),
+                "method": rng.random() < 0.3}
 
     # ------------------------------------------------------------------ execution
     def apply(self, st, op, rec):
@@ -161,6 +162,10 @@ class NamingScenario(StateScenario):
         wp = [w[0] for w in want]
         if gp != wp:
             rec.fail("C16/enumeration", "C16/enumerated-paths-differ", "get_all_fields lists %r, the schema declares %r" % (gp, wp))
+        with schema._quiet():
+            got3, e3 = self._call(lambda: root.get_all_fields())
+        if e3 is not None or [g[0] for g in got3] != gp or any(a[2] is not b[2] for a, b in zip(got3, got)):
+            rec.fail("C16/enumeration", "C16/deprecated-enumeration-differs", "Schema.get_all_fields() differs from get_all_fields(schema)")
         got2, _ = self._call(lambda: get_all_fields(cfg))
         if got2 is not None and [g[0] for g in got2] != gp:
             rec.fail("C16/enumeration", "C16/config-enumeration-differs", "get_all_fields(config) differs from get_all_fields(schema)")
@@ -169,6 +174,10 @@ class NamingScenario(StateScenario):
             f2, e2 = self._call(lambda: root[path])
             if e2 is not None or f2 is not field:
                 rec.fail("C16/lookup", "C16/schema-lookup-differs/%s" % node["kind"], "schema[%r] is %r, enumeration reported %r" % (path, f2 if e2 is None else e2, field))
+            with schema._quiet():
+                fp_, e4 = self._call(lambda: field.full_path)
+            if e4 is not None or fp_ != path:
+                rec.fail("C16/refpath", "C16/full-path-differs/%s" % node["kind"], "field.full_path gives %r for the field enumerated as %r" % (fp_ if e4 is None else e4, path))
             rp, e3 = self._call(lambda: item_ref_path(field))
             if e3 is not None or rp != path:
                 rec.fail("C16/refpath", "C16/reference-path-differs/%s" % node["kind"], "item_ref_path gives %r for the field enumerated as %r" % (rp if e3 is None else e3, path))
@@ -231,6 +240,9 @@ class NamingScenario(StateScenario):
 
     def parser_for(self, st, cfg, on):
         target = st.B.root if on == "schema" else cfg
+        if on == "schema-method":
+            with schema._quiet():
+                return self._call(lambda: st.B.root.generate_argparse_parser(prog="sim", add_help=False))
         return self._call(lambda: generate_argparse_parser(target, prog="sim", add_help=False))
 
     def do_parser(self, st, cfg, op, rec):
@@ -267,7 +279,10 @@ class NamingScenario(StateScenario):
             rec.fail("C16/parser", "C16/parser-generation-raises/%s" % type(err).__name__, "generate_argparse_parser raised %r" % (err,))
         argv = list(op["argv"])
         try:
-            ns = parser.parse_args(argv)
+            import contextlib
+            import io
+            with contextlib.redirect_stderr(io.StringIO()):
+                ns = parser.parse_args(argv)
         except SystemExit:
             rec.log("cmdline", "argparse-usage-error")
             rec.probe("cmdline-usage-error")
@@ -298,7 +313,11 @@ class NamingScenario(StateScenario):
         ign = [ignore] if isinstance(ignore, str) else list(ignore or [])
         effective = {d: v for d, v in supplied.items() if d not in ign}
         s0 = snapshot.snap(cfg, st.serials)
-        _, err = self._call(lambda: cmdline_args_override(cfg, ns, ignore=ignore))
+        if op.get("method"):
+            with schema._quiet():
+                _, err = self._call(lambda: cfg.cmdline_args_override(ns, ignore=ignore))     # the method spelling
+        else:
+            _, err = self._call(lambda: cmdline_args_override(cfg, ns, ignore=ignore))
         s1 = snapshot.snap(cfg, st.serials)
         rec.log("cmdline", argv, ignore, type(err).__name__ if err else "ok")
         rec.kind("n%d:%s" % (min(len(supplied), 4), "ign" if ign else "noign"))
